@@ -116,6 +116,21 @@ def snapshot(v):
     if isinstance(v, HMap): return ('hashmap', [[snapshot(k), snapshot(x)] for k, x in v.items])
     if isinstance(v, tuple) and v and v[0] == 'keyset': return ('keyset', [snapshot(k) for k in v[1]])
     return v
+def idform(v, seen, stack):
+    if not isinstance(v, Arr): return None
+    k = id(v)
+    if k in stack: return ('cycle', seen[k])
+    if k not in seen: seen[k] = len(seen)
+    stack.append(k)
+    try: return ('arr', seen[k], [idform(x, seen, stack) for x in v.v])
+    finally: stack.pop()
+def contains(container, target, depth=0):
+    """does `container` (Arr / HMap) reach the object `target`?"""
+    if container is target: return True
+    if depth > 20: return True
+    if isinstance(container, Arr): return any(contains(x, target, depth + 1) for x in container.v)
+    if isinstance(container, HMap): return any(contains(k, target, depth + 1) or contains(x, target, depth + 1) for k, x in container.items)
+    return False
 def is_num(v): return isinstance(v, float) or v.__class__ is SF
 def is_bool(v): return isinstance(v, bool) or (v.__class__ is S and v.w == 1)
 
@@ -147,7 +162,7 @@ class Ref:
         s.namespaces = {'missionnamespace': {}, 'uinamespace': {}, 'parsingnamespace': {}, 'profilenamespace': {}}
         s.ns_stack = ['missionnamespace']     # innermost dynamically enclosing with-do selects the namespace for globals
         s.spawned = []
-        s.trace = []
+        s.trace = []; s.trace_ids = []; s.flags = set()
         s.max_while = max_while
         s.steps = 0
     # ---- scopes
@@ -222,7 +237,7 @@ class Ref:
         if k == 'scopename': s.scopes[-1]['name'] = st[1].lower(); return None
         if k == 'breakout': raise _BreakOut(st[1], s.ev(st[2]) if st[2] is not None else None)
         if k == 'trace':
-            v = s.ev(st[1]); s.trace.append(snapshot(v)); return Arr([v])    # trace__ is a unary operator returning its operand
+            v = s.ev(st[1]); s.trace.append(snapshot(v)); s.trace_ids.append(idform(Arr([v]), {}, [])); return Arr([v])    # trace__ is a unary operator returning its operand
         return s.ev(st)
     def truth(s, c):
         if c.__class__ is S: return bool(c)       # forks / follows the path condition
@@ -430,7 +445,28 @@ class Ref:
             if o == '==': return l.lower() == r.lower()
             if o == 'isequalto': return l == r
         if isinstance(l, Arr):
-            if o == 'pushback': l.v.append(r); return float(len(l.v) - 1)
+            if o == 'pushback':
+                if contains(r, l): raise RefError('array recursion refused')
+                l.v.append(r); return float(len(l.v) - 1)
+            if o == 'pushbackunique':
+                for x in l.v:
+                    if s.truth(eq_vals(x, r)): return -1.0
+                if contains(r, l): raise RefError('array recursion refused')
+                l.v.append(r); return float(len(l.v) - 1)
+            if o == 'deleteat' and is_num(r) and r.__class__ is not SF:
+                i = int(r)
+                if i < 0 or i >= len(l.v): return None
+                return l.v.pop(i)
+            if o == 'resize' and is_num(r) and r.__class__ is not SF:
+                n = int(r)
+                if n < 0: raise RefError('negative size')
+                del l.v[n:]
+                while len(l.v) < n: l.v.append(None)
+                return None
+            if o == 'sort' and isinstance(r, bool):
+                if all(isinstance(x, float) for x in l.v): l.v.sort(reverse=not r); return None
+                raise RefUnsupported('sort of non-numbers')
+            if o == '-' and isinstance(r, Arr): return Arr([x for x in l.v if not any(s.truth(eq_vals(x, y)) for y in r.v)])
             if o == '+' and isinstance(r, Arr): return Arr(l.v + r.v)
             if o == 'select' and is_num(r):
                 if r.__class__ is SF: raise RefUnsupported('symbolic index')
@@ -439,9 +475,18 @@ class Ref:
                 if i == len(l.v): return None
                 return l.v[i]
             if o == 'isequalto' and isinstance(r, Arr): return eq_vals(l, r)
-            if o == 'append' and isinstance(r, Arr): l.v.extend(r.v); return None
+            if o == 'append' and isinstance(r, Arr):
+                if any(contains(x, l) for x in r.v): raise RefError('array recursion refused')
+                l.v.extend(list(r.v)); return None
+            if o == 'select' and isinstance(r, Arr) and len(r.v) == 2 and all(isinstance(x, float) for x in r.v):
+                a, n = int(r.v[0]), int(r.v[1])
+                if a < 0 or n < 0 or a > len(l.v): raise RefError('range')
+                return Arr(l.v[a:a + n])
         if isinstance(l, HMap):
-            if o == 'set' and isinstance(r, Arr) and len(r.v) == 2: s.hm_set(l, r.v[0], r.v[1]); return None
+            if o == 'set' and isinstance(r, Arr) and len(r.v) == 2:
+                if contains(r.v[1], l) or contains(r.v[0], l):
+                    s.flags.add('hashmap-cycle'); raise RefError('hashmap recursion refused')
+                s.hm_set(l, r.v[0], r.v[1]); return None
             if o == 'get':
                 i = s.hm_find(l, r); return l.items[i][1] if i is not None else None
             if o == 'deleteat':
@@ -452,6 +497,7 @@ class Ref:
         if isinstance(l, Arr) and o == 'set' and isinstance(r, Arr) and len(r.v) == 2 and is_num(r.v[0]) and r.v[0].__class__ is not SF:
             i = int(r.v[0])
             if i < 0: raise RefError('negative index')
+            if contains(r.v[1], l): raise RefError('array recursion refused')
             while len(l.v) <= i: l.v.append(None)
             l.v[i] = r.v[1]; return None
         if o == 'isequalto': return eq_vals(l, r)
